@@ -486,6 +486,66 @@ def r20_10(ck: Check) -> None:
         ck.ok("R20.10", "no function that runs outside the per-connection catch-all decodes stored bytes / text", "%d functions" % len(fns), "")
 
 
+def shared_class_state(tree: ast.AST, everywhere: Optional[List[ast.AST]] = None) -> List[Tuple[int, str, str]]:
+    """class-body assignments of a mutable display (`xs = []`, `m: Dict = {}`, `set()`) in a class that is not a dataclass and whose
+    methods mutate `self.<name>` in place: one object shared by all instances. (line, class, attribute)"""
+    out = []
+    for c in ast.walk(tree):
+        if not isinstance(c, ast.ClassDef):
+            continue
+        decs = [(dotted(d.func) if isinstance(d, ast.Call) else dotted(d)) or "" for d in c.decorator_list]
+        if any(d.split(".")[-1] == "dataclass" for d in decs):
+            continue        # (dataclasses refuse mutable defaults themselves)
+        for st in c.body:
+            tgt = val = None
+            if isinstance(st, ast.Assign) and len(st.targets) == 1 and isinstance(st.targets[0], ast.Name):
+                tgt, val = st.targets[0].id, st.value
+            elif isinstance(st, ast.AnnAssign) and isinstance(st.target, ast.Name) and st.value is not None:
+                tgt, val = st.target.id, st.value
+            if tgt is None or tgt.startswith("__"):
+                continue
+            mutable = isinstance(val, (ast.List, ast.Dict, ast.Set)) or (isinstance(val, ast.Call) and isinstance(val.func, ast.Name)
+                                                                         and val.func.id in ("list", "dict", "set", "bytearray", "deque", "defaultdict"))
+            if not mutable:
+                continue
+            rebinds = any(isinstance(n, ast.Attribute) and n.attr == tgt and isinstance(n.ctx, ast.Store) and isinstance(n.value, ast.Name) and n.value.id == "self"
+                          for m in c.body if isinstance(m, ast.FunctionDef) and m.name == "__init__" for n in ast.walk(m))
+            if rebinds:
+                continue        # every instance gets its own in __init__
+            mutated = False
+            # changed in place through an instance: by the class's own methods (self.x...) or by anyone holding an instance (obj.x...)
+            for scope_ in (everywhere or [c]):
+                for n in ast.walk(scope_):
+                    if isinstance(n, ast.Call) and isinstance(n.func, ast.Attribute) and isinstance(n.func.value, ast.Attribute) and n.func.value.attr == tgt \
+                            and n.func.attr in ("append", "add", "extend", "update", "insert", "pop", "remove", "clear", "setdefault", "popleft", "appendleft"):
+                        mutated = True
+                    if isinstance(n, ast.Subscript) and isinstance(n.ctx, (ast.Store, ast.Del)) and isinstance(n.value, ast.Attribute) and n.value.attr == tgt:
+                        mutated = True
+            if mutated:
+                out.append((st.lineno, c.name, tgt))
+    return out
+
+
+def r20_11(ck: Check) -> None:
+    """per-connection state is per connection: a mutable object in a class body is ONE object for all instances, so what one peer makes
+    the node remember shows up in every other connection (and outlives the peer)"""
+    ctl = ast.parse("class K:\n    items: list = []\n    def add(self, x):\n        self.items.append(x)\n")
+    ctl_ok = ast.parse("class K:\n    items: list = []\n    def __init__(self):\n        self.items = []\n    def add(self, x):\n        self.items.append(x)\n")
+    if len(shared_class_state(ctl)) != 1 or shared_class_state(ctl_ok):
+        ck.unknown("R20.11", "positive control", "the shared-class-state scan did not behave on its control snippets")
+        return
+    n = 0
+    mods = [m for m in ck.repo.modules.values() if m.name.startswith("skepticoin.networking")]
+    for m in mods:
+        for line, cls, attr in shared_class_state(m.tree, [x.tree for x in ck.repo.modules.values()]):
+            n += 1
+            ck.violated("R20.11", "%s.%s is per-instance state" % (cls, attr),
+                        "`%s` is assigned a mutable object in the class body and changed in place through `self.%s`: all instances (all "
+                        "connections) share it" % (attr, attr), "%s:%d" % (m.path, line))
+    if not n:
+        ck.ok("R20.11", "no networking class keeps mutable per-instance state in a class-level attribute", "%d modules" % len(mods), "")
+
+
 def check(ck: Check) -> None:
     ck.explanations.append(
         "C20: exception containment (every peer-driven call and every may-raise call of the selector-event handler is inside a non-re-raising "
@@ -499,6 +559,7 @@ def check(ck: Check) -> None:
     ck.run("R20.7", "dialling an announced address cannot end the loop", lambda: r20_7(ck))
     ck.run("R20.9", "outgoing dials are capped below the descriptor limit", lambda: r20_9(ck))
     ck.run("R20.10", "nothing outside the per-connection catch-all decodes what peers sent", lambda: r20_10(ck))
+    ck.run("R20.11", "per-connection state is per connection", lambda: r20_11(ck))
     ck.run("R20.8", "the event loop ends only through its flag, dispatches every ready socket, and never waits unboundedly", lambda: r20_8(ck))
     from .c09 import r09_5
     ck.run("R09.5", "buffering a block before validation writes nothing", lambda: r09_5(ck))
